@@ -29,7 +29,10 @@ RULE = ("(a) exhaustive: every value of the first two frame octets x canonical c
         "per framework, rotating with the seed: seeds 0..7 cover all 16) + the others with length-class representatives, "
         "thorough: all 16 completely in both frameworks; (b) grammar-generated frame "
         "sequences with ONE mutation from the violation list (compressed messages from one compressor per connection), "
-        "UTF-8 corpus (every ill-formed class, cut across frames), close-payload corpus, PMCE corpus (context take-over "
+        "UTF-8 corpus (every ill-formed class, cut across frames), 'ASCII run after an open multi-octet sequence' corpus "
+        "(pieces = fragments / reads / inflate calls ending after each proper prefix of a 2/3/4-octet sequence, then 1..40 "
+        "ASCII octets, then the continuation octets or not, plus valid twins; NVX and pure-Python validator in both tiers), "
+        "close-payload corpus, PMCE corpus (context take-over "
         "with verified back-references, stored/fixed/dynamic blocks, inflated text valid / ill-formed / truncated, "
         "fragmented with control frames in between, undecodable DEFLATE); (c) every stream under >=2 (exhaustive part) / "
         ">=4 (other parts) segmentations incl. 1-byte trickle and single cuts for streams <=48 octets (quick: every other "
@@ -56,6 +59,7 @@ DECIDING = {
     "valid_close_checked": 10, "clauses_reached": 2 * len(J.CLAUSES), "impl_reasons": 38,
     "compressed_messages_compared": 200, "context_takeover_streams": 50, "clause/compressed-text-invalid-utf8": 50,
     "events_in_failure_window_checked": 10,
+    "ascii_after_open_sequence_checked_nvx": 1000, "ascii_after_open_sequence_checked_pure_python": 1000,
 }
 ONLINE_MAX = 4096
 
@@ -323,7 +327,7 @@ CLOSE_CODES = [0, 999, 1000, 1001, 1002, 1003, 1004, 1005, 1006, 1007, 1008, 100
 SIZES = [0, 0, 1, 2, 3, 7, 20, 60, 124, 125, 126, 127, 128, 300, 1000]
 MUTATIONS = ["none", "rsv", "rsv1-misuse", "reserved-opcode", "fragmented-control", "control-too-long", "cont-outside",
              "data-inside", "non-minimal", "length-msb", "wrong-mask", "close-1", "close-code", "close-reason", "utf8",
-             "utf8-trunc", "utf8", "none"]
+             "utf8-trunc", "utf8", "none", "utf8-asciirun"]
 
 
 def gen_text(rng, n):
@@ -364,7 +368,7 @@ def gen_stream(rng, ctx, big=False):
             text_msgs.append(spec)
         frames.append(spec)
     # payload-level mutations are applied before compression / fragmentation
-    if mut in ("utf8", "utf8-trunc"):
+    if mut in ("utf8", "utf8-trunc", "utf8-asciirun"):
         if not text_msgs:
             spec = {"text": True, "payload": gen_text(rng, rng.choice(SIZES)), "compressed": bool(ctx.pmce and rng.random() < 0.5),
                     "nfrag": rng.choice([1, 2, 3])}
@@ -378,6 +382,17 @@ def gen_stream(rng, ctx, big=False):
             while 0 < pos < len(p) and (p[pos] & 0xC0) == 0x80:
                 pos += 1
             spec["payload"] = p[:pos] + rng.choice(ILL) + p[pos:]
+        elif mut == "utf8-asciirun":
+            # lead octets of a sequence | ASCII run | (mostly) the continuation octets - pieces cut exactly there
+            pos = rng.randint(0, len(p))
+            while 0 < pos < len(p) and (p[pos] & 0xC0) == 0x80:
+                pos += 1
+            seq = rng.choice(ASCII_RUN_SEQS)
+            k = rng.randint(1, len(seq) - 1)
+            run = rng.choice(ASCII_RUNS)
+            tail = seq[k:] if rng.random() < 0.7 else b""
+            spec["payload"] = p[:pos] + seq[:k] + bytes(0x61 + j % 26 for j in range(run)) + tail + p[pos:]
+            spec["forced_cuts"] = [pos + k, pos + k + run]
         else:
             spec["payload"] = p + rng.choice(TRUNC)
     wire = []
@@ -385,13 +400,18 @@ def gen_stream(rng, ctx, big=False):
     for spec in frames:
         data = spec["payload"]
         comp = spec["compressed"]
-        w = deflater.message(data) if comp else data
-        nfrag = spec["nfrag"]
-        cuts = sorted(rng.randint(0, len(w)) for _ in range(nfrag - 1))
-        pieces, prev = [], 0
-        for c in cuts + [len(w)]:
-            pieces.append(w[prev:c])
-            prev = c
+        if "forced_cuts" in spec:
+            pieces = _pieces(data, spec["forced_cuts"])
+            if comp:
+                pieces = deflater.message_parts(pieces)     # every inflate call emits exactly one piece
+        else:
+            w = deflater.message(data) if comp else data
+            nfrag = spec["nfrag"]
+            cuts = sorted(rng.randint(0, len(w)) for _ in range(nfrag - 1))
+            pieces, prev = [], 0
+            for c in cuts + [len(w)]:
+                pieces.append(w[prev:c])
+                prev = c
         msg_bounds.append(len(wire))
         for j, piece in enumerate(pieces):
             wire.append({"op": (1 if spec["text"] else 2) if j == 0 else 0, "fin": j == len(pieces) - 1,
@@ -638,6 +658,51 @@ def pmce_corpus(ctx):
     return out
 
 
+ASCII_RUN_SEQS = [b"\xc3\xa9", b"\xe2\x82\xac", b"\xf0\x9f\x98\x80", b"\xed\x9f\xbf", b"\xf4\x8f\xbf\xbf", b"\xe0\xa0\x80"]
+ASCII_RUNS = (1, 7, 8, 9, 17, 40)
+
+
+def asciirun_corpus(ctx):
+    """[(label, stream, extra segmentation specs)]: a multi-octet sequence left OPEN at the end of a piece (frame
+    fragment, TCP read or inflate call), followed by a piece that is / begins with a run of plain ASCII (1..40 octets:
+    shorter and longer than a machine word), followed - or not - by the continuation octets that 'complete' the
+    sequence.  An ASCII octet where a continuation octet is due is ill-formed whatever comes later, and however
+    the octets are cut into pieces.  Shapes: one frame (the cuts are read boundaries), three fragments (frame
+    boundaries), and with permessage-deflate the same two shapes with the DEFLATE data sync-flushed at the two cut
+    points, so that every inflate call emits exactly one piece.  Valid twins: the sequence completed correctly
+    across the cut, then the ASCII run."""
+    pk = peer_key(ctx, 13)
+    trailer = enc(9, b"T", key=pk) + enc(1, b"after", key=pk)
+    hl = lambda n: 2 + (0 if n <= 125 else 2) + (4 if pk else 0)
+    out = []
+    for si, seq in enumerate(ASCII_RUN_SEQS):
+        for p in range(1, len(seq)):
+            for run in ASCII_RUNS:
+                ascii_run = bytes(0x41 + j % 26 for j in range(run))
+                for kind, pieces in (("completed", [b"x" + seq[:p], ascii_run, seq[p:] + b"y"]),
+                                     ("open", [b"x" + seq[:p], ascii_run, b"z"]),
+                                     ("valid", [b"x" + seq[:p], seq[p:] + ascii_run, b"y"])):
+                    name = "asciirun/s%d/p%d/r%d/%s" % (si, p, run, kind)
+                    whole = b"".join(pieces)
+                    a, b = len(pieces[0]), len(pieces[0]) + len(pieces[1])
+                    h = hl(len(whole))
+                    out.append((name + "/frame", enc(1, whole, key=pk) + trailer,
+                                [["cuts", [h + a]], ["cuts", [h + a, h + b]], ["cuts", [h + a, h + a + min(8, len(pieces[1]))]],
+                                 ["cuts", [h, h + a, h + b]]]))
+                    fr = b"".join(enc(1 if j == 0 else 0, piece, fin=(j == 2), key=pk) for j, piece in enumerate(pieces))
+                    out.append((name + "/fragments", fr + trailer, []))
+                    if ctx.pmce:
+                        cs = J.Deflater().message_parts(pieces)
+                        cw = b"".join(cs)
+                        h = hl(len(cw))
+                        ca, cb = len(cs[0]), len(cs[0]) + len(cs[1])
+                        out.append((name + "/deflate-frame", enc(1, cw, rsv=4, key=pk) + trailer,
+                                    [["cuts", [h + ca]], ["cuts", [h + ca, h + cb]], ["cuts", [h, h + ca, h + cb]]]))
+                        fr = b"".join(enc(1 if j == 0 else 0, c, fin=(j == 2), rsv=4 if j == 0 else 0, key=pk) for j, c in enumerate(cs))
+                        out.append((name + "/deflate-fragments", fr + trailer, []))
+    return out
+
+
 def gen_segs(stream, seedstr, cut_step=1, cut_phase=0):
     n = len(stream)
     specs = [["whole"]]
@@ -675,6 +740,13 @@ def shards(tier, seed):
         for part in range(NPARTS):
             out.append({"name": "%s-nvx-%d" % (fw, part), "fw": fw, "env": env, "timeout": 1500 if tier == "quick" else 7200,
                         "params": {"tier": tier, "seed": seed, "part": part, "parts": NPARTS, "nvx": True}})
+    if tier == "quick":
+        # the pure-Python validator is a separate implementation: the 'ASCII after an open sequence' family runs on it too
+        env0 = dict(env, AUTOBAHN_USE_NVX="0")
+        for fw in ("tx", "aio"):
+            for part in range(2):
+                out.append({"name": "%s-pure-asciirun-%d" % (fw, part), "fw": fw, "env": env0, "timeout": 1500,
+                            "params": {"tier": tier, "seed": seed, "part": part, "parts": 2, "nvx": False, "only": "asciirun"}})
     if tier == "thorough":
         env0 = dict(env, AUTOBAHN_USE_NVX="0")
         for fw in ("tx", "aio"):
@@ -730,9 +802,12 @@ def run_shard(params, R):
     import time
     walls = {}
     try:
-        for name, fn, args in (("exhaustive", _run_exhaustive, (env, R, tier, seed, part, parts, params["nvx"])),
-                               ("corpora", _run_corpora, (env, R, tier, seed, part, parts)),
-                               ("generated", _run_generated, (env, R, tier, seed, part, parts, fw))):
+        phases = (("exhaustive", _run_exhaustive, (env, R, tier, seed, part, parts, params["nvx"])),
+                  ("corpora", _run_corpora, (env, R, tier, seed, part, parts)),
+                  ("generated", _run_generated, (env, R, tier, seed, part, parts, fw)))
+        if params.get("only") == "asciirun":
+            phases = (("asciirun", _run_asciirun, (env, R, tier, seed, part, parts)),)
+        for name, fn, args in phases:
             t0 = time.time()
             e0 = R.counters.get("evaluations", 0)
             fn(*args)
@@ -781,6 +856,43 @@ def _run_exhaustive_(env, R, tier, seed, part, parts, nvx):
                                   "segmentations": specs}, kind="header-case", every=7)
 
 
+def _asciirun_contexts(tier, seed):
+    """quick: 4 of the 8 'outside' contexts (every factor with both values, alternating with the seed)"""
+    out = []
+    for ci, ctx in enumerate(M.ALL_CTX):
+        if ctx.inside:
+            continue
+        if tier == "quick" and ((ctx.role == "server") + ctx.pmce + ctx.drop + seed) % 2:
+            continue
+        out.append((ci, ctx))
+    return out
+
+
+def _run_asciirun(env, R, tier, seed, part, parts):
+    pure = "nvx" not in _validator_module()
+    idx = 0
+    for ci, ctx in _asciirun_contexts(tier, seed):
+        for k, (label, stream, extra) in enumerate(asciirun_corpus(ctx)):
+            idx += 1
+            if idx % parts != part:
+                continue
+            specs = [["whole"], ["bytewise"]] + extra + [["policy", "random", "a%d/%d/%d" % (seed, ci, k)]]
+            tl = run_stream(env, R, ctx, stream, specs, {"kind": "asciirun", "ctx": ctx.to_json(), "idx": k}, label)
+            R.count("corpus_cases/asciirun")
+            R.count("ascii_after_open_sequence_checked", len(specs))
+            if pure:
+                R.count("ascii_after_open_sequence_checked_pure_python", len(specs))
+            else:
+                R.count("ascii_after_open_sequence_checked_nvx", len(specs))
+            R.seen("asciirun_verdicts", "%s|%s" % (label.split("/")[4], tl.failure.clause if tl.failure else "delivered"))
+            R.sample({"ctx": ctx.name(), "label": label, "stream_hex": stream[:80].hex(), "segmentations": specs[:6]}, kind="corpus-asciirun", every=997)
+
+
+def _validator_module():
+    from autobahn.websocket import utf8validator as U
+    return U.Utf8Validator.__module__
+
+
 def _run_corpora(env, R, tier, seed, part, parts):
     idx = 0
     for ci, ctx in enumerate(M.ALL_CTX):
@@ -797,6 +909,7 @@ def _run_corpora(env, R, tier, seed, part, parts):
                 run_stream(env, R, ctx, stream, specs, {"kind": name, "ctx": ctx.to_json(), "idx": k}, label)
                 R.count("corpus_cases/" + name)
                 R.sample({"ctx": ctx.name(), "label": label, "stream_hex": stream[:80].hex()}, kind="corpus-" + name, every=211)
+    _run_asciirun(env, R, tier, seed, part, parts)
 
 
 def _run_generated(env, R, tier, seed, part, parts, fw):
@@ -836,6 +949,8 @@ def replay(case, R):
         stream = close_corpus(ctx)[case["idx"]][1]
     elif kind == "pmce":
         stream = pmce_corpus(ctx)[case["idx"]][1]
+    elif kind == "asciirun":
+        stream = asciirun_corpus(ctx)[case["idx"]][1]
     else:
         stream = bytes.fromhex(case["hex"])
     specs = [case["seg"]]
